@@ -10,8 +10,11 @@ THEOREMS = ["UrcuVerif.CallRcu.base_reach", "UrcuVerif.CallRcu.barrier_in_cs_ref
             "UrcuVerif.CallRcu.binvh_step", "UrcuVerif.CallRcu.binvp_step", "UrcuVerif.CallRcu.binvk_step",
             "UrcuVerif.CallRcu.j2_reach", "UrcuVerif.CallRcu.bdone_reach", "UrcuVerif.CallRcu.pend_shape",
             "UrcuVerif.CallRcu.completion_lifetime", "UrcuVerif.CallRcu.binvr_step", "UrcuVerif.CallRcu.mrun_is_curMark"]
-UNPROVED = ["UrcuVerif.CallRcu.C04_full ('rcu_barrier() always returns' as a temporal statement on fair runs; proved instead: "
-            "barrier_no_lost_wakeup, outstanding_marker, marker_not_stuck, marker_measure + C03's helper liveness lemmas)"]
+UNPROVED = ["UrcuVerif.CallRcu.C04_full as first written (weak per-thread fairness only) does not hold for the same reason as C03_full "
+            "(starvation at call_rcu_mutex; argued, C03_full_false is the machine-checked analogue). Proved instead: "
+            "barrier_eventually_returns (from the point where the markers are queued and the mutex released, rcu_barrier() returns on "
+            "every run that is weakly fair for the caller and the markers and on which every marker callback is eventually invoked = "
+            "C03's liveness). Still open: the lock / init / enqueue loop before that point under contention for call_rcu_mutex"]
 TRUSTED = ["Lean 4.33 kernel; axioms ⊆ {propext, Classical.choice, Quot.sound}",
            "the barrier layer (CallRcu/Barrier.lean) performs C03 steps only through the hooks extBegin/extLock/extCall/extUnlock/extEnd; every C03 theorem holds underneath (base_reach)",
            "per-helper FIFO order of the wfcqueue (C10) and of the helper's invocation loop (cb_fifo_per_helper, C03)",
@@ -32,6 +35,7 @@ def run(chk):
     chk.cov["trusted_base"] = TRUSTED
     chk.proof_part(["UrcuVerif.Props.C04", "drv_callrcu"], "UrcuVerif.Props.C04", THEOREMS,
                    ["UrcuVerif.CallRcu", "UrcuVerif.Props.C04", "UrcuVerif.Machine"], unproved=UNPROVED)
+    chk.live_part()
     ok, log = c03.build()
     if not ok:
         chk.fail("build", {"theorem": "harness/scen/callrcu.c does not compile against /repo", "lean_error": log[-2000:]}, nofail=True)
